@@ -385,11 +385,37 @@ Qed.
 Local Notation step := (step K V keqb lower).
 Local Notation spec_step := (spec_step K V keqb lower).
 
+(* in-place mutation of a stored value *)
+Lemma sfind_some_in kl e m : sfind kl m = Some e -> In (kl, e) m.
+Proof.
+  induction m as [|[k' e'] m IH]; cbn; [discriminate|].
+  destruct (keqb_spec kl k') as [->|N]; [intros H; injection H as ->; auto | auto].
+Qed.
+Lemma aset_same {X} k (x : X) l : aget k l = Some x -> aset k x l = l.
+Proof.
+  induction l as [|[k' e] l IH]; cbn; [discriminate|].
+  destruct (keqb k k'); [intros H; injection H as ->; reflexivity | intros H; rewrite IH; auto].
+Qed.
+Lemma mutate_abs c k sp v v' : inv c -> sfind (lower k) (abs c) = Some (sp, v) ->
+  let c' := upd K V c (aset (lower k) v' (c_dict K V c)) (c_keys K V c) in
+  abs c' = sput (lower k) sp v' (abs c) /\ inv c' /\ same_kind c c'.
+Proof.
+  intros [L S] G c'. 
+  assert (Hk : aget (lower k) (c_keys K V c) = Some sp).
+  { rewrite (zip3_get_keys _ _ _ L). fold (abs c). rewrite G. reflexivity. }
+  destruct (zip3_set (c_dict K V c) (c_keys K V c) (lower k) sp v' L) as [L' Z].
+  rewrite (aset_same _ _ _ Hk) in L', Z.
+  assert (Hl : lower sp = lower k).
+  { destruct S as [_ F]. rewrite Forall_forall in F. apply (F _ (sfind_some_in _ _ _ G)). }
+  unfold c', abs, inv. cbn. split; [exact Z|]. split; [|split; reflexivity].
+  split; [exact L'|]. unfold abs. cbn. rewrite Z. apply sput_inv; [split; apply S | exact Hl].
+Qed.
+
 Theorem step_refines c o dflt : inv c -> cls_ok c dflt ->
   spec_step dflt (abs c) o = (abs (fst (step c o)), snd (step c o)) /\
   inv (fst (step c o)) /\ cls_ok (fst (step c o)) dflt.
 Proof.
-  intros I C. destruct o as [k v|k|k|k|k d|k d| |k d|kvs| |]; cbn [step spec_step CIDict.step CIMap.spec_step fst snd].
+  intros I C. destruct o as [k v|k|k|k|k d|k d| |k d|kvs| | |k f]; cbn [step spec_step CIDict.step CIMap.spec_step fst snd].
   - (* setitem *) destruct (setitem_abs c k v I) as (A & I' & SK). rewrite A.
     split; [reflexivity|]. split; [exact I' | exact (cls_ok_same _ _ _ SK C)].
   - (* getitem *) cbn. rewrite (getitem_abs c k dflt I C). unfold lookup_spec, ret_val.
@@ -458,6 +484,13 @@ Proof.
     { destruct I as [L _]. unfold abs. destruct (zip3_length _ _ L) as [H1 H2]. rewrite H1, H2. lia. }
     rewrite R. cbn. rewrite A. split; [reflexivity|]. split; [exact I' | exact (cls_ok_same _ _ _ SK C)].
   - (* lower *) destruct (lower_abs c dflt I C) as (c' & R & A & I' & C'). rewrite R. cbn. rewrite A. auto.
+  - (* mutate *) unfold ci_mutate. rewrite (getitem_abs c k dflt I C), (contains_abs c k I). unfold lookup_spec, sm_get, sm_has.
+    destruct (sfind (lower k) (abs c)) as [[sp v]|] eqn:G; cbn [option_map snd].
+    + destruct (f v) as [v'|]; [|cbn; split; [reflexivity | split; assumption]]. cbn [fst snd ret_unit ebind].
+      destruct (mutate_abs c k sp v v' I G) as (A & I' & SK). rewrite A.
+      split; [reflexivity|]. split; [exact I' | exact (cls_ok_same _ _ _ SK C)].
+    + destruct dflt as [d0|]; [|cbn; split; [reflexivity | split; assumption]].
+      destruct (f d0); cbn; split; try reflexivity; split; assumption.
 Qed.
 
 Local Notation observe := (observe K V keqb lower).
@@ -500,7 +533,7 @@ Proof.
 Qed.
 Lemma step_inv c o : inv c -> inv (fst (step c o)).
 Proof.
-  intros I. destruct o as [k v|k|k|k|k d|k d| |k d|kvs| |]; cbn [step CIDict.step fst snd]; try exact I.
+  intros I. destruct o as [k v|k|k|k|k d|k d| |k d|kvs| | |k f]; cbn [step CIDict.step fst snd]; try exact I.
   - apply setitem_abs. exact I.
   - destruct (delitem_abs c k I) as (c' & D & _ & I' & _). rewrite D. exact I'.
   - assert (BP : forall d', inv (fst (base_pop K V keqb lower c k d'))).
@@ -523,6 +556,9 @@ Proof.
     + destruct (ci_items_lower K V keqb lower c); cbn; [apply init_abs | exact I].
     + destruct (ci_items_lower K V keqb lower c); cbn; [apply init_abs | exact I].
     + destruct (ci_items_lower K V keqb lower c); cbn; [apply update_abs; apply empty_inv | exact I].
+  - unfold ci_mutate. destruct (getitem c k) as [v|e]; [|exact I]. destruct (f v) as [v'|]; [|exact I].
+    rewrite (contains_abs c k I). unfold sm_has. destruct (sfind (lower k) (abs c)) as [[sp v0]|] eqn:G; [|exact I].
+    cbn. apply (mutate_abs c k sp v0 v' I G).
 Qed.
 
 Lemma zip3_forall d ks : lock d ks ->
@@ -770,6 +806,29 @@ Proof. intros R. apply default_get_no_insert. apply reachable_inv, R. Qed.
 Theorem setdefault_absent_inserts_r c k x dflt : reachable K V keqb lower c -> cls_ok c dflt -> contains c k = false ->
   step c (OSetdefault k x) = (setitem c k x, EOk (RVal x)).
 Proof. intros R. apply setdefault_absent_inserts. apply reachable_inv, R. Qed.
+
+(* a default yielded for an absent key is a fresh one: mutating it in place changes nothing, the next miss
+   yields the pristine default again *)
+Theorem default_is_fresh c k f d0 v' : inv c -> cls_ok c (Some d0) -> contains c k = false -> f d0 = Some v' ->
+  step c (OMutate k f) = (c, EOk RNone) /\ forall k', contains c k' = false -> getitem c k' = EOk d0.
+Proof.
+  intros I C H F. split.
+  - cbn. unfold ci_mutate. rewrite (getitem_abs c k (Some d0) I C), H.
+    rewrite (contains_abs c k I), shas_sget in H. unfold CIRel.lookup_spec. destruct (sget (abs c) k); [discriminate|].
+    rewrite F. reflexivity.
+  - intros k' H'. rewrite (getitem_abs c k' (Some d0) I C). rewrite (contains_abs c k' I), shas_sget in H'.
+    unfold CIRel.lookup_spec. destruct (sget (abs c) k'); [discriminate | reflexivity].
+Qed.
+(* mutating a stored value in place touches neither the keys, nor the spellings, nor the order, nor the length *)
+Theorem mutate_keeps_keys c k f : c_keys K V (fst (step c (OMutate k f))) = c_keys K V c /\
+  ci_iter K V (fst (step c (OMutate k f))) = ci_iter K V c.
+Proof.
+  cbn. unfold ci_mutate, ci_iter. destruct (getitem c k); [|auto]. destruct (f a); [|auto].
+  destruct (contains c k); auto.
+Qed.
+Theorem default_is_fresh_r c k f d0 v' : reachable K V keqb lower c -> cls_ok c (Some d0) -> contains c k = false -> f d0 = Some v' ->
+  step c (OMutate k f) = (c, EOk RNone) /\ forall k', contains c k' = false -> getitem c k' = EOk d0.
+Proof. intros R. apply default_is_fresh. apply reachable_inv, R. Qed.
 
 (* ------------------------------------------------------------------ helpers for several live containers *)
 Lemma init_cls_ok cl pairs : cl <> ClsDefault -> cls_ok (ci_init K V keqb lower cl pairs) None.
